@@ -38,9 +38,21 @@ Section Query.
         end
     end.
 
+  (** offset and limit are u64: the window is cut by counting down in [N] along the list (a limit of
+      2^64-1 is an ordinary value; [Proofs/QueryFacts.v window_spec]: this is [firstn]/[skipn]) *)
+  Fixpoint skipn_N (l : list entry) (n : N) : list entry :=
+    match l with
+    | [] => []
+    | _ :: r => if n =? 0 then l else skipn_N r (N.pred n)
+    end.
+  Fixpoint firstn_N (l : list entry) (n : N) : list entry :=
+    match l with
+    | [] => []
+    | x :: r => if n =? 0 then [] else x :: firstn_N r (N.pred n)
+    end.
   Definition window (q : query) (l : list entry) : list entry :=
-    let l := skipn (N.to_nat (q_offset q)) l in
-    match q_limit q with Some n => firstn (N.to_nat n) l | None => l end.
+    let l := skipn_N l (q_offset q) in
+    match q_limit q with Some n => firstn_N l n | None => l end.
 
   Definition keep_empty (q : query) (e : entry) : bool := q_include_empty q || negb (is_marker EH e).
 
